@@ -5,7 +5,8 @@
     threads and ANY queues.  Tie to the code: real OS threads through the cfg(callbag_verif)
     hooks under the token-passing scheduler, compared event by event with this model. *)
 From CB Require Import Threads ThreadSpec ThreadsFine ThreadsTakeMerge ThreadsTakeCombine Inv_threads_take
-  Inv_threads_takemerge Inv_threads_take_fine Inv_threads_takecombine Inv_threads_total.
+  Inv_threads_takemerge Inv_threads_take_fine Inv_threads_takecombine Inv_threads_total
+  Inv_threads_always.
 
 Theorem C19_safe max qs s :
   tk_reach max qs s ->
@@ -184,8 +185,20 @@ Print Assumptions C19_takecombine_run_total.
 Theorem C19_takemerge_always_passes max n qs fins sch fuel :
   1 <= max -> fuel >= takemerge_fuel n qs n ->
   takemerge_check max (rev (xms_tr (run_full (xm_step true max n) xm_finished n sch fuel (xm_init n qs fins)))) = [].
-Proof.
-  intros Hm Hf. apply (@takemerge_driver_final max n qs fins n sch fuel Hm).
-  exact (@takemerge_run_full_total max n qs fins n sch fuel Hf).
-Qed.
+Proof. exact (@takemerge_always_passes max n qs fins sch fuel). Qed.
 Print Assumptions C19_takemerge_always_passes.
+
+(** ... take behind combine!, any endings ... *)
+Theorem C19_takecombine_always_passes max n qs fins sch fuel :
+  1 <= n -> 1 <= max -> fuel >= takecombine_fuel n qs n ->
+  takecombine_check max n qs
+    (rev (xcs_tr (run_full (xc_step true max n) xc_finished n sch fuel (xc_init n qs fins)))) = [].
+Proof. exact (@takecombine_always_passes max n qs fins sch fuel). Qed.
+Print Assumptions C19_takecombine_always_passes.
+
+(** ... and take alone *)
+Theorem C19_always_passes max qs n sch fuel :
+  1 <= max -> (forall t, n <= t -> qs t = []) -> fuel >= take_fuel qs n ->
+  take_check max (rev (tks_tr (run_full (tk_step true max) tk_finished n sch fuel (tk_init qs)))) = [].
+Proof. exact (@take_always_passes max qs n sch fuel). Qed.
+Print Assumptions C19_always_passes.
